@@ -281,9 +281,40 @@ def run_cli_shapes(ctx, rejected, shapes):
     binary = build.build("bloch", "asan")
     r0 = ctx.rng("cli-sample")
     sample = r0.sample(rejected, min(len(rejected), ctx.n(250, 3000)))
-    sample += [("shape:" + k, v, None) for k, v in shapes.items()
-               if k in ("shots-huge", "empty", "only-comment", "nul", "bom", "class-cycle",
-                        "self-extends", "dup-class", "int-huge", "array-huge")]
+    # loader-level shapes (the analyse harness bypasses ModuleLoader): no execution involved
+    fd = build.build("frontdump", "asan")
+    for k in ("shots-huge", "empty", "only-comment", "nul", "bom", "class-cycle", "self-extends",
+              "dup-class", "int-huge", "array-huge", "derived-first", "generic-self"):
+        d = core.scratch_dir("ld")
+        pth = os.path.join(d, "m.bloch")
+        with open(pth, "wb") as f:
+            f.write(shapes[k].encode("latin-1"))
+        r = core.run([fd, "load", "-I", os.path.join(core.REPO, "library"), "--analyse", pth],
+                     timeout=60)
+        ctx.count("loader_shapes")
+        ctx.note_case("load:" + k, sample=None)
+        c = r.classify()
+        import json as _json
+        outs = []
+        for l in r.stdout.splitlines():
+            try:
+                outs.append(_json.loads(l))
+            except ValueError:
+                pass
+        raw = [o for o in outs if "raw_exception" in o]
+        if c[0] == "sanitizer":
+            ctx.violation(c[1], "module loader/analyser died on shape %s" % k,
+                          dict(source=shapes[k], name=k), {"stderr.txt": r.stderr[-6000:]})
+        elif raw:
+            ctx.violation("raw:" + re.sub(r"[^A-Za-z_:]", "", raw[0]["raw_exception"])[:40],
+                          "loader surfaced a raw C++ exception on shape %s: %s" %
+                          (k, raw[0]["raw_exception"]), dict(source=shapes[k], name=k))
+        elif c[0] not in ("ok",):
+            ctx.violation("load-shape:%s" % (c[0],), "loader on shape %s: %r" % (k, c),
+                          dict(source=shapes[k], name=k), {"stderr.txt": r.stderr[-6000:]})
+        elif any(o.get("error") not in (None, "Lexical", "Parse", "Semantic") for o in outs):
+            ctx.violation("diag:category", "shape %s: %r" % (k, outs), dict(source=shapes[k], name=k))
+        shutil.rmtree(d, ignore_errors=True)
 
     def one(item):
         name, src, cat = item
@@ -301,8 +332,6 @@ def run_cli_shapes(ctx, rejected, shapes):
                 ctx.violation("diag:multiple", "CLI printed %d lines after the stop line for %s" %
                               (d[4], name), dict(source=src, name=name), files)
             continue
-        if cat is None and cls[0] in ("ok", "diag"):
-            continue  # shapes that may legitimately be accepted (and then run)
         if cls[0] == "sanitizer":
             key = cls[1]
         elif cls[0] == "raw":
